@@ -10,6 +10,10 @@ use crate::{
 use super::tag::parse_generic_decl_list;
 use super::{expect_token, if_token_bump, parse_description};
 
+/// Recursion limit of the type grammar: deeper types are reported as a doc error instead of overflowing
+/// the stack.
+const MAX_TYPE_DEPTH: usize = 100;
+
 pub fn parse_type(p: &mut LuaDocParser) -> DocParseResult {
     if p.current_token() == LuaTokenKind::TkDocContinueOr {
         return parse_multi_line_union_type(p);
@@ -104,6 +108,19 @@ fn parse_extends_conditional_type(
 // keyof <type>, -1
 // <type> | <type> , <type> & <type>, <type> in keyof <type>
 fn parse_sub_type(p: &mut LuaDocParser, limit: i32) -> DocParseResult {
+    if p.type_depth >= MAX_TYPE_DEPTH {
+        return Err(LuaParseError::doc_error_from(
+            &t!("type is nested too deeply"),
+            p.current_token_range(),
+        ));
+    }
+    p.type_depth += 1;
+    let result = parse_sub_type_inner(p, limit);
+    p.type_depth -= 1;
+    result
+}
+
+fn parse_sub_type_inner(p: &mut LuaDocParser, limit: i32) -> DocParseResult {
     let uop = LuaOpKind::to_type_unary_operator(p.current_token());
     let mut cm = if uop != LuaTypeUnaryOperator::None {
         let range = p.current_token_range();
